@@ -185,13 +185,11 @@ fn pair_toggle_msg(t: T3) -> pm::FeatureToggle {
 }
 
 fn set_pair(app: &mut App, owner: &Addr, factory: &Addr, pair: &Addr, t: T3, with_fees: bool) -> Result<(), String> {
-    let fees = if with_fees {
-        let c: pm::ConfigResponse = query(app, pair, &pm::QueryMsg::Config {})?;
-        Some(c.pool_fees)
-    } else {
-        None
-    };
-    exec(app, owner, factory, &fm::ExecuteMsg::UpdatePairConfig { pair_addr: pair.to_string(), owner: None, fee_collector_addr: None, pool_fees: fees, feature_toggle: Some(pair_toggle_msg(t)) }, &[]).map(|_| ())
+    let c: pm::ConfigResponse = query(app, pair, &pm::QueryMsg::Config {})?;
+    let fees = if with_fees { Some(c.pool_fees.clone()) } else { None };
+    // every other update also repeats the (unchanged) fee collector address in the same message
+    let collector = if app.block_info().height % 2 == 1 { Some(c.fee_collector_addr.to_string()) } else { None };
+    exec(app, owner, factory, &fm::ExecuteMsg::UpdatePairConfig { pair_addr: pair.to_string(), owner: None, fee_collector_addr: collector, pool_fees: fees, feature_toggle: Some(pair_toggle_msg(t)) }, &[]).map(|_| ())
 }
 
 fn pair_history(acc: &mut Acc, r: &mut Rng, kind: Kind, variant: u64, steps: u64) {
@@ -354,18 +352,24 @@ fn helper_history(acc: &mut Acc, r: &mut Rng, variant: u64, steps: u64) {
 // ------------------------------------------------------------------------------------------------
 // trio
 
-fn set_trio(app: &mut App, owner: &Addr, factory: &Addr, trio: &Addr, t: T3, with_fees: bool) -> Result<(), String> {
-    let fees = if with_fees {
-        let c: tm::ConfigResponse = query(app, trio, &tm::QueryMsg::Config {})?;
-        Some(c.pool_fees)
+/// `extra` bit 0: also send a valid amp ramp, bit 1: also send the (unchanged) fee collector address
+fn set_trio(app: &mut App, owner: &Addr, factory: &Addr, trio: &Addr, t: T3, with_fees: bool, extra: u64) -> Result<(), String> {
+    let c: tm::ConfigResponse = query(app, trio, &tm::QueryMsg::Config {})?;
+    let fees = if with_fees { Some(c.pool_fees.clone()) } else { None };
+    let height = app.block_info().height;
+    let ramp = if extra & 1 != 0 {
+        let cur = crate::mon::c04::amp_at(&crate::mon::c04::AmpCfg { a0: c.initial_amp, a1: c.future_amp, t0: c.initial_amp_block, t1: c.future_amp_block }, height);
+        let target = if cur >= 2 && height % 2 == 0 { cur / 2 } else { (cur * 2).min(1_000_000) };
+        Some(tm::RampAmp { future_a: target.max(1), future_block: height + 10_000 + (height % 977) })
     } else {
         None
     };
+    let collector = if extra & 2 != 0 { Some(c.fee_collector_addr.to_string()) } else { None };
     exec(
         app,
         owner,
         factory,
-        &fm::ExecuteMsg::UpdateTrioConfig { trio_addr: trio.to_string(), owner: None, fee_collector_addr: None, pool_fees: fees, feature_toggle: Some(tm::FeatureToggle { deposits_enabled: t.deposit, withdrawals_enabled: t.withdraw, swaps_enabled: t.third }), amp_factor: None },
+        &fm::ExecuteMsg::UpdateTrioConfig { trio_addr: trio.to_string(), owner: None, fee_collector_addr: collector, pool_fees: fees, feature_toggle: Some(tm::FeatureToggle { deposits_enabled: t.deposit, withdrawals_enabled: t.withdraw, swaps_enabled: t.third }), amp_factor: ramp },
         &[],
     )
     .map(|_| ())
@@ -394,11 +398,16 @@ fn trio_history(acc: &mut Acc, r: &mut Rng, variant: u64, steps: u64) {
             let nt = T3::from_bits(r.below(8));
             let wf = r.chance(1, 2);
             hist.push(format!("set toggles {nt:?} with_fees={wf}"));
-            match set_trio(&mut wd.app, &owner, &factory, &trio, nt, wf) {
+            let extra = if r.chance(1, 2) { r.below(4) } else { 0 };
+            hist.push(format!("   (same message also carries: ramp={} fee_collector={})", extra & 1 != 0, extra & 2 != 0));
+            match set_trio(&mut wd.app, &owner, &factory, &trio, nt, wf, extra) {
                 Ok(_) => {
                     t = nt;
                     ever = true;
                     acc.count("toggle.set");
+                    if extra & 1 != 0 {
+                        acc.count("toggle.set.trio.with-amp-ramp");
+                    }
                 }
                 Err(e) => acc.violation("C17", "P3/toggle-update-rejected/trio", json!({"err": short(&e), "hist": hist})),
             }
@@ -411,7 +420,7 @@ fn trio_history(acc: &mut Acc, r: &mut Rng, variant: u64, steps: u64) {
         let lp = wd.trio.lp.clone();
         let (o2, f2, p2) = (owner.clone(), factory.clone(), trio.clone());
         let wf2 = r.chance(1, 2);
-        let mut set = move |app: &mut App, tt: T3| set_trio(app, &o2, &f2, &p2, tt, wf2);
+        let mut set = move |app: &mut App, tt: T3| set_trio(app, &o2, &f2, &p2, tt, wf2, 0);
         match r.below(6) {
             0 | 1 => {
                 let d = if res[0] == 0 { r.range128(10_000_000, 1_000_000_000_000) } else { r.range128(res[0] / 1000 + 1, res[0] / 3 + 2) };
@@ -473,8 +482,9 @@ fn set_vault(app: &mut App, owner: &Addr, vfactory: &Addr, vault: &Addr, t: T3, 
     } else {
         None
     };
+    let collector = if perm % 2 == 1 { Some(c0.fee_collector_addr.to_string()) } else { None };
     let send = |app: &mut App, d: Option<bool>, wdr: Option<bool>, f: Option<bool>, fees: Option<white_whale_std::fee::VaultFee>| -> Result<(), String> {
-        exec(app, owner, vfactory, &vfm::ExecuteMsg::UpdateVaultConfig { vault_addr: vault.to_string(), params: vm::UpdateConfigParams { flash_loan_enabled: f, deposit_enabled: d, withdraw_enabled: wdr, new_owner: None, new_vault_fees: fees, new_fee_collector_addr: None } }, &[]).map(|_| ())
+        exec(app, owner, vfactory, &vfm::ExecuteMsg::UpdateVaultConfig { vault_addr: vault.to_string(), params: vm::UpdateConfigParams { flash_loan_enabled: f, deposit_enabled: d, withdraw_enabled: wdr, new_owner: None, new_vault_fees: fees, new_fee_collector_addr: collector.clone() } }, &[]).map(|_| ())
     };
     match mode {
         0 => send(app, Some(t.deposit), Some(t.withdraw), Some(t.third), fees),
@@ -632,7 +642,7 @@ pub fn run(ctx: &Ctx) -> (CheckMeta, Acc) {
             }
         }
     });
-    let mut obligations: Vec<String> = vec!["check.P1.disabled-op-rejected".into(), "check.P2.enabled-op-unaffected".into(), "check.P3.round-trip-before-twin".into(), "check.P4.fresh-all-enabled".into(), "toggle.set.vault.mode0".into(), "toggle.set.vault.mode1".into(), "toggle.set.vault.mode2".into()];
+    let mut obligations: Vec<String> = vec!["check.P1.disabled-op-rejected".into(), "check.P2.enabled-op-unaffected".into(), "check.P3.round-trip-before-twin".into(), "check.P4.fresh-all-enabled".into(), "toggle.set.vault.mode0".into(), "toggle.set.vault.mode1".into(), "toggle.set.vault.mode2".into(), "toggle.set.trio.with-amp-ramp".into()];
     for (tg, paths) in [
         ("pair-cp", vec!["deposit.direct", "deposit.frontend-helper", "withdraw.cw20-hook", "swap.direct", "swap.cw20-hook", "swap.router", "swap.router-cw20-hook"]),
         ("pair-stable", vec!["deposit.direct", "withdraw.cw20-hook", "swap.direct", "swap.cw20-hook", "swap.router", "swap.router-cw20-hook"]),
@@ -647,7 +657,7 @@ pub fn run(ctx: &Ctx) -> (CheckMeta, Acc) {
     }
     let meta = CheckMeta {
         level: "exploration",
-        rule: "twin-run monitor over real constant-product pairs, stableswap pairs, trios (all asset-kind variants), native and cw20 vaults, with and without liquidity. The operator sets one of the 2^3 switch combinations through the factory (pools: optionally together with a fee update; vaults: all flags at once, only the changed flags, or one message per flag in random order, optionally with fees). For every operation x entry path (deposit: direct, frontend helper, by a contract; withdraw: cw20 send hook, by a contract; swap: direct, cw20 send hook, router with native offer, router through cw20 send; flash loan: direct, vault router) the chain is snapshotted, the call is run under the current switches, the snapshot restored, everything re-enabled (half of the time after an extra disable / re-enable round trip when nothing was disabled) and the same call run again. P1: own switch off => rejected and state byte-identical. P2: own switch on => same accept/reject outcome and identical whole-world balance diff as with everything enabled. P3: after re-enabling the outcome equals the untouched one; re-enabling is never rejected. P4: fresh pools / vaults report all switches on. distinct = (target, path, switches, outcome under switches, outcome all-enabled).".to_string(),
+        rule: "twin-run monitor over real constant-product pairs, stableswap pairs, trios (all asset-kind variants), native and cw20 vaults, with and without liquidity. The operator sets one of the 2^3 switch combinations through the factory (pools: optionally together with a fee update, the fee collector address and - trios - a valid amp ramp; vaults: all flags at once, only the changed flags, or one message per flag in random order, optionally with fees). For every operation x entry path (deposit: direct, frontend helper, by a contract; withdraw: cw20 send hook, by a contract; swap: direct, cw20 send hook, router with native offer, router through cw20 send; flash loan: direct, vault router) the chain is snapshotted, the call is run under the current switches, the snapshot restored, everything re-enabled (half of the time after an extra disable / re-enable round trip when nothing was disabled) and the same call run again. P1: own switch off => rejected and state byte-identical. P2: own switch on => same accept/reject outcome and identical whole-world balance diff as with everything enabled. P3: after re-enabling the outcome equals the untouched one; re-enabling is never rejected. P4: fresh pools / vaults report all switches on. distinct = (target, path, switches, outcome under switches, outcome all-enabled).".to_string(),
         assumptions: vec!["direct WithdrawLiquidity{} / Withdraw{} messages (token-factory LP) cannot be reached in this build: LP tokens are cw20".into()],
         obligations,
     };
